@@ -311,7 +311,26 @@ def nodes_laws(acc: Acc, root, label: str, case: dict, k_perm: int, seed: int) -
 			if got != baseline[p]:
 				bad('order-dependent-class', f'{p!r}: {got} under a permuted query order (k={k}), {baseline[p]} in document order')
 				return None
+	# the Nodes of the tree handled before this one are still alive (as the modules of a session are): what they answer for their own
+	# tree is not changed by this tree having been indexed and resolved in the meantime
+	if _PREVIOUS:
+		prev_nodes, prev_paths, prev_classes, prev_case = _PREVIOUS[0]
+		for n, p in enumerate(prev_paths):
+			acc.see('law', 'previous-tree-unchanged')
+			try:
+				pid = prev_nodes.id(p)
+				node = prev_nodes.by(p)
+				cls = type(node).__module__ + '.' + type(node).__name__
+			except Errors.Error as e:
+				pid, cls = n, 'raise:' + type(e).__name__
+			if pid != n or cls != prev_classes[p]:
+				acc.violation(f'{label}/previous-tree-changed', f'after this tree was indexed, the Nodes of the tree handled before answer id {pid} (was {n}) / class {cls} (was {prev_classes[p]}) for {p!r}', {'kind': 'sequence', 'first': prev_case, 'second': case})
+				break
+	_PREVIOUS[:] = [(nodes, paths, dict(baseline), {k: v for k, v in case.items() if k != 'fresh_process_classes'})]
 	return baseline
+
+
+_PREVIOUS: list = []
 
 
 def fresh_process_class_maps(sources: list[str]) -> list[dict[str, str] | None]:
@@ -463,6 +482,10 @@ def shard(ctx: Ctx, acc: Acc) -> None:
 
 
 def replay(ctx: Ctx, case: dict, acc: Acc) -> None:
+	if case.get('kind') == 'sequence':
+		check_case(acc, case['first'], 1)
+		check_case(acc, case['second'], 1)
+		return
 	if case.get('seed', 0) >= 9000 and case.get('kind') == 'source':
 		# the fixed sources are a history: all of them, in their order, each compared with its fresh-process class map
 		fresh = fresh_process_class_maps(FIXED_SOURCES)
